@@ -404,6 +404,35 @@ func (p *Prog) callMods(c *ssa.CallCommon, ms *ModSet, visiting map[*ssa.Functio
 			return
 		}
 	}
+	// sort.Sort / sort.Stable with a statically known concrete sorter: effects are those of its methods
+	if full := callee.String(); (full == "sort.Sort" || full == "sort.Stable") && len(c.Args) == 1 {
+		if mi, ok := c.Args[0].(*ssa.MakeInterface); ok {
+			t := mi.X.Type()
+			ms.allocates = true
+			okAll := true
+			for _, name := range []string{"Len", "Less", "Swap"} {
+				sel := p.SSA.MethodSets.MethodSet(t).Lookup(nil, name)
+				if sel == nil {
+					// unexported / package-local lookup
+					for i := 0; i < p.SSA.MethodSets.MethodSet(t).Len(); i++ {
+						if s := p.SSA.MethodSets.MethodSet(t).At(i); s.Obj().Name() == name {
+							sel = s
+						}
+					}
+				}
+				if sel == nil {
+					okAll = false
+					continue
+				}
+				if m := p.SSA.MethodValue(sel); m != nil && !visiting[m] {
+					ms.union(p.ModSetOf(m))
+				}
+			}
+			if okAll {
+				return
+			}
+		}
+	}
 	if visiting[callee] {
 		return
 	}
